@@ -311,9 +311,11 @@ namespace micm
       SetAbsoluteTolerances(std::vector<double>& tolerances, const std::map<std::string, std::size_t>& species_map) const
   {
     tolerances = std::vector<double>(species_map.size(), 1e-3);
+    // the map is keyed by the unique names of the state variables: bare names for the gas phase,
+    // "phase.name" for the other phases; parameterized species are not state variables
     for (auto& species : system_.gas_phase_.species_)
     {
-      if (species.HasProperty("absolute tolerance"))
+      if (!species.IsParameterized() && species.HasProperty("absolute tolerance"))
       {
         tolerances[species_map.at(species.name_)] = species.template GetProperty<double>("absolute tolerance");
       }
@@ -322,9 +324,10 @@ namespace micm
     {
       for (auto& species : phase.second.species_)
       {
-        if (species.HasProperty("absolute tolerance"))
+        if (!species.IsParameterized() && species.HasProperty("absolute tolerance"))
         {
-          tolerances[species_map.at(species.name_)] = species.template GetProperty<double>("absolute tolerance");
+          tolerances[species_map.at(phase.first + "." + species.name_)] =
+              species.template GetProperty<double>("absolute tolerance");
         }
       }
     }
